@@ -179,6 +179,21 @@ func generate() {
 			emit(opLogin(b, []byte("pw2")), true)
 		}
 	}
+	// the shortest witnesses of the classic mistakes
+	emit(resetLine(nil, nil), false)
+	emit(opReg("Usr", []byte("pw1"), "u@v"), true)
+	emit(opChpw("usr", []byte("pw2"), []byte("pw3")), true) // wrong old password
+	emit(opLogin("Usr", []byte("pw3")), true)
+	emit(opLogin("Usr", []byte("pw1")), true)
+	emit(opChem("USR", "new@mail"), true)
+	emit(opGet("usr"), true)
+	emit(resetLine(nil, []initAcct{{slot: 7, id: id13("Tam"), kind: 't', pw: []byte("pw1"), email: "t@m"}, {slot: 2, id: id13("Zero"), kind: 'z'}}), false)
+	emit(opLogin("tam", []byte("pw1")), true) // the hash differs from pw1's in its last character only
+	emit(opChk("Tam", []byte("pw1")), true)
+	emit(opLogin("zero", []byte("")), true)
+	emit(opReg("Next", []byte(""), "-"), true) // the empty password registers a locked account; first free slot is 1
+	emit(opLogin("next", []byte("")), true)
+	emit(opChpw("next", []byte(""), []byte("pw1")), true)
 	for _, p := range pwPool {
 		for _, q := range pwPool {
 			emit(resetLine(nil, []initAcct{{slot: 3, id: id13("guest"), kind: 'g', pw: []byte("gpw")}, {slot: 0, id: id13("Tam"), kind: 't', pw: []byte("pw1")}}), false)
